@@ -93,11 +93,12 @@ def run(ctx):
     nprog = int(os.environ.get("VERIF_C08_PROGRAMS", "40" if ctx.quick else "400"))
     denv = {"VERIF_LIN_OUT": lin_path, "VERIF_PROGRAMS": nprog, "VERIF_BIG_W": 16 if ctx.quick else 32}
     n_inc = len(ctx.inconclusives)
-    rep = ctx.go_driver("storeconc", race=True, timeout=1500 if ctx.quick else 3600, env=denv)
+    want_race = os.environ.get("VERIF_C08_NORACE", "") == ""
+    rep = ctx.go_driver("storeconc", race=want_race, timeout=1500 if ctx.quick else 3600, env=denv)
     log_path = os.path.join(ctx.work, "driver_storeconc_%d.log" % (len(ctx.cov["drivers"]) - 1))
     drv = ctx.cov["drivers"][-1]
-    raced = True
-    if drv["rc"] != 0 and not rep.get("counters"):
+    raced = want_race
+    if want_race and drv["rc"] != 0 and not rep.get("counters"):
         # no report at all: the race-instrumented build of the dependency tree did not finish in time (cold
         # cache: it takes far longer than the test itself) or the race runtime is unavailable. The property's
         # own observations do not need the race detector: run again without it and say so.
